@@ -83,7 +83,7 @@ impl ArrayAccess {
         final(self).elem_format_code == old(self).elem_format_code, final(self).size == old(self).size, final(self).start_pos == old(self).start_pos,
         old(self).count == 0 ==> r == Ok::<Option<ElemV>, Error>(None) && final(self).de.decoded@ == old(self).de.decoded@ && final(self).de.elem_format_code is None && final(self).count == 0,
         old(self).count > 0 ==> final(self).count == old(self).count - 1
-            && final(self).de.decoded@ == old(self).de.decoded@.push(old(self).elem_format_code),   // [C03.array.every-element-under-array-constructor] EVERY element of an array -- the second and later ones too, whatever the earlier elements were (lists, maps, nested arrays clear or replace the deserializer's current element constructor) -- is decoded under the array's element constructor
+            && final(self).de.decoded@ == old(self).de.decoded@.push(old(self).elem_format_code),   // [C05.array.one-constructor-decoded-for-every-element] [C03.array.every-element-under-array-constructor] EVERY element of an array -- the second and later ones too, whatever the earlier elements were (lists, maps, nested arrays clear or replace the deserializer's current element constructor) -- is decoded under the array's element constructor
         old(self).count > 0 && r is Ok ==> r->Ok_0 is Some && final(self).de.reader.consumed - old(self).start_pos <= old(self).size,   // [C04.array.body-overrun] an element that reads past the announced body is refused
         old(self).count > 0 && r is Err && final(self).de.seed_errs@ == old(self).de.seed_errs@ && old(self).start_pos <= old(self).de.reader.consumed
             ==> final(self).de.reader.consumed - old(self).start_pos > old(self).size,                           // [C03.array.element-within-body-accepted] an element that decodes and stays within the announced body (ending exactly at its end included) is accepted: the overrun guard refuses nothing else
